@@ -1,6 +1,6 @@
 PROPERTY = {
     'id': 'C03',
- 'extra': ['bounded.run_corpus.run'],
+ 'extra': ['bounded.run_corpus.run', 'bounded.c03_shape.run'],
     'contract_modules': ['doctest_example', 'util_stream', 'checker', 'doctest_part', 'runner'],
     'functions': ['xdoctest.doctest_example:DocTest.run',
                   'xdoctest.checker:_strip_exception_details',
@@ -15,8 +15,9 @@ PROPERTY = {
               'run: an Exception raised by a part without a want is recorded (exc_info[1] IS that exception) and ends the loop; with a want '
               'check_exception is consulted exactly once with the LAST line of format_exception_only of that exception and the part\'s want; '
               'after an expected exception the loop goes on with the next part'],
-        'B': ['the real parser and DocTest.run on every sequence of 1..2 (thorough 3) statement templates plus random longer ones, each run twice, against an oracle written from the property statements: executed statements and their order, verdict, recorded exception and failing part, logged output, renderable report, stdout restored, second run identical, module global untouched (bounded/run_corpus.py)'],
-             'T': ['extract_exc_want / _EXCEPTION_RE (assumed contract; regex outside the decidable fragment)',
+        'B': ['extract_exc_want (the _EXCEPTION_RE regular expression) against the independent procedural definition of a traceback block on every want of up to 4 (thorough 5) lines from 12 line shapes x 2 indentations (bounded/c03_shape.py)',
+              'the real parser and DocTest.run on every sequence of 1..2 (thorough 3) statement templates plus random longer ones, each run twice, against an oracle written from the property statements: executed statements and their order, verdict, recorded exception and failing part, logged output, renderable report, stdout restored, second run identical, module global untouched (bounded/run_corpus.py)'],
+             'T': ['extract_exc_want / _EXCEPTION_RE (assumed contract in the proofs; regex outside the decidable fragment; cross-checked by the bounded stand-in)',
               'check_output as the relation S.match (its own contract is C05)',
               'traceback.format_exception_only'],
     },
